@@ -41,3 +41,22 @@ pub fn affine_lifter_checked<P: ark_ec::short_weierstrass::SWCurveConfig>(
         ark_ec::short_weierstrass::Projective::new_unchecked(a.x, a.y, <P::BaseField as ark_ff::Field>::ONE)
     }
 }
+
+/// R-ZIPREM (C15): `src.by_ref().zip(dst)` pulls one more item from `src` before it notices that `dst` is exhausted;
+/// asking `src` afterwards whether anything is left misses exactly one item.
+pub fn zip_by_ref_leftover(src: &[u64], dst: &mut [u64; 2]) -> bool {
+    let mut it = src.iter();
+    for (s, d) in it.by_ref().zip(dst.iter_mut()) {
+        *d = *s;
+    }
+    it.next().is_some()
+}
+
+/// R-ZIPREM twin with the short side first (must NOT match): the source is only pulled while a slot is free.
+pub fn zip_by_ref_leftover_ok(src: &[u64], dst: &mut [u64; 2]) -> bool {
+    let mut it = src.iter();
+    for (d, s) in dst.iter_mut().zip(it.by_ref()) {
+        *d = *s;
+    }
+    it.next().is_some()
+}
